@@ -74,6 +74,24 @@ func (m PMut) apply(base ParamsSpec) (ParamsSpec, bool) {
 			return p, false
 		}
 		p.Parts[m.I] = *m.Part
+	case "addr-bit":
+		// one bit of one participant address (either coordinate)
+		if m.I >= n {
+			return p, false
+		}
+		b := append([]byte(nil), p.Parts[m.I].Bytes()...)
+		b[(m.V/8)%64] ^= 1 << (m.V % 8)
+		p.Parts[m.I] = PartSpec{Raw: gen.HexOf(b)}
+	case "addr-xy":
+		// the two coordinates of one participant address exchanged
+		if m.I >= n {
+			return p, false
+		}
+		b := p.Parts[m.I].Bytes()
+		if bytes.Equal(b[:32], b[32:]) {
+			return p, false
+		}
+		p.Parts[m.I] = PartSpec{Raw: gen.HexOf(append(append([]byte(nil), b[32:]...), b[:32]...))}
 	case "swap":
 		if m.I >= n || m.J >= n || bytes.Equal(p.Parts[m.I].Bytes(), p.Parts[m.J].Bytes()) {
 			return p, false
@@ -170,6 +188,8 @@ func drawIDCase(t *rapid.T) IDCase {
 		np := genPart().Draw(t, "newpart")
 		add(PMut{Kind: "replace", I: i, Part: &np})
 	}
+	add(PMut{Kind: "addr-bit", I: rapid.IntRange(0, n-1).Draw(t, "bitpart"), V: rapid.IntRange(0, 511).Draw(t, "bit")})
+	add(PMut{Kind: "addr-xy", I: rapid.IntRange(0, n-1).Draw(t, "xypart")})
 	for i := 0; i < n; i++ {
 		for j := i + 1; j < n; j++ {
 			add(PMut{Kind: "swap", I: i, J: j})
@@ -225,7 +245,7 @@ func protoRoundTrip(p *channel.Params) (*channel.Params, error) {
 
 // stableID checks every "equal parameters have equal IDs" clause for one
 // parameter set and returns its ID.
-func stableID(kind string, spec ParamsSpec) (channel.ID, *h.Failure) {
+func stableID(kind string, spec ParamsSpec, reused *channel.Params) (channel.ID, *h.Failure) {
 	p, err := spec.New()
 	if err != nil {
 		return channel.ID{}, h.Failf("valid-refused:"+kind, "NewParams refused parameters within the documented limits: %v", err)
@@ -260,6 +280,13 @@ func stableID(kind string, spec ParamsSpec) (channel.ID, *h.Failure) {
 	}
 	if c := d.Clone(); c.ID() != id {
 		return id, h.Failf("id-unstable:clone-of-decoded", "decode(encode(p)).Clone().ID() = %x, original %x", c.ID(), id)
+	}
+	// decoding into a receiver that already holds other parameters
+	if err := reused.Decode(bytes.NewReader(eb.Bytes())); err != nil {
+		return id, h.Failf("decode-valid-failed:reused-receiver", "decoding into a used Params value failed: %v", err)
+	}
+	if reused.ID() != id {
+		return id, h.Failf("id-unstable:decode-into-used-receiver", "decoding into a Params value that held other parameters yields ID %x, expected %x", reused.ID(), id)
 	}
 	// encoding produced independently of Params.Encode (also the accepting twin
 	// of the refusal checks in the constraints part)
@@ -302,8 +329,9 @@ func runIDCase(c IDCase) *h.Outcome {
 	o.Class(fmt.Sprintf("parts:%d", len(c.Base.Parts)))
 	o.Class("app:" + c.Base.App.Kind)
 	o.Fail = h.Guard(func() *h.Failure {
+		reused := new(channel.Params)
 		for i := range es {
-			id, f := stableID(es[i].kind, es[i].spec)
+			id, f := stableID(es[i].kind, es[i].spec, reused)
 			if f != nil {
 				return f
 			}
@@ -402,6 +430,9 @@ func machineIDs(c IDCase, id channel.ID, o *h.Outcome) *h.Failure {
 	if cl := m.Clone(); cl.ID() != id || cl.StagingState().ID != id {
 		return h.Failf("machine-state-id:clone", "cloned machine: ID %x, staged state ID %x, parameters' ID %x", cl.ID(), cl.StagingState().ID, id)
 	}
+	if f := actionMachineID(c, acc, o); f != nil {
+		return f
+	}
 	if !allPool {
 		return nil
 	}
@@ -427,7 +458,43 @@ func machineIDs(c IDCase, id channel.ID, o *h.Outcome) *h.Failure {
 	return nil
 }
 
-const ruleID = "a parameter set within the documented limits (2-8 participants: pool keys or arbitrary 64-byte sim addresses incl. short coordinates and duplicates; app none/payment/mock; nonce 0..2^256-1 biased to the bounds; duration 1..2^64-1; flags; aux) and ALL its applicable single-field variants: duration +-1, every participant replaced, every pair of different participants swapped, app added / removed / definition byte changed / kind changed, nonce +-1, ledger flag, virtual flag (aux and participant count variants are only classified). Oracle: for the base and every variant the ID is non-zero and equal for the same arguments constructed twice, Clone(), CalcID, decode(encode()), decode(independent reference encoding), clone of the decoded value and the protobuf round trip (FromParams, Marshal, Unmarshal, ToParams); over all pairs of {base, variants}: IDs differ iff the canonical tuples of the listed fields differ; a StateMachine over the base (own account = first pool-key participant) reports the ID, the state created by Init (generated valid allocation, also with locked funds) and its clone carry it, and after all signatures and EnableInit the current state carries it. non-trivial = at least one pair of different parameter sets compared; distinct by SHA-256 of the canonical case JSON"
+// actApp is an ActionApp whose InitState yields a valid allocation (the
+// repository's MockApp returns an empty one, which no machine accepts).
+type actApp struct {
+	*channel.MockApp
+	init gen.AllocSpec
+}
+
+func (a *actApp) InitState(*channel.Params, []channel.Action) (channel.Allocation, channel.Data, error) {
+	return a.init.Build(), channel.NewMockOp(channel.OpValid), nil
+}
+
+// actionMachineID: the state an ActionMachine creates in Init carries the ID
+// of the machine's parameters (mock-app bases only).
+func actionMachineID(c IDCase, acc map[wallet.BackendID]wallet.Account, o *h.Outcome) *h.Failure {
+	if c.Base.App.Kind != "mock" {
+		return nil
+	}
+	app := &actApp{MockApp: channel.NewMockApp(c.Base.App.Build().Def()), init: c.Alloc}
+	p, err := channel.NewParams(c.Base.Dur, c.Base.parts(), app, c.Base.Nonce.Int(), c.Base.Ledger, c.Base.Virtual, c.Base.aux())
+	if err != nil {
+		return h.Failf("valid-refused:action-app", "NewParams refused an action app: %v", err)
+	}
+	am, err := channel.NewActionMachine(acc, *p)
+	if err != nil {
+		return h.Failf("machine-new", "NewActionMachine failed for a participant of the channel: %v", err)
+	}
+	if err := am.Init(); err != nil {
+		return h.Failf("machine-init", "ActionMachine.Init with a valid initial allocation failed: %v", err)
+	}
+	o.Class("machine:action-init")
+	if s := am.StagingState(); s == nil || s.ID != p.ID() || am.ID() != p.ID() {
+		return h.Failf("machine-state-id:action-init", "state created by ActionMachine.Init carries another ID than the parameters (%x)", p.ID())
+	}
+	return nil
+}
+
+const ruleID = "a parameter set within the documented limits (2-8 participants: pool keys or arbitrary 64-byte sim addresses incl. short coordinates and duplicates; app none/payment/mock; nonce 0..2^256-1 biased to the bounds; duration 1..2^64-1; flags; aux) and ALL its applicable single-field variants: duration +-1, every participant replaced, one address bit flipped, the coordinates of one address exchanged, every pair of different participants swapped, app added / removed / definition byte changed / kind changed, nonce +-1, ledger flag, virtual flag (aux and participant count variants are only classified). Oracle: for the base and every variant the ID is non-zero and equal for the same arguments constructed twice, Clone(), CalcID, decode(encode()), decode(independent reference encoding), decoding into a Params value that held other parameters, clone of the decoded value and the protobuf round trip (FromParams, Marshal, Unmarshal, ToParams); over all pairs of {base, variants}: IDs differ iff the canonical tuples of the listed fields differ; a StateMachine over the base (own account = first pool-key participant) reports the ID, the state created by Init (generated valid allocation, also with locked funds) and its clone carry it, and after all signatures and EnableInit the current state carries it; for mock-app bases also the state created by ActionMachine.Init (harness action app with a valid initial allocation). non-trivial = at least one pair of different parameter sets compared; distinct by SHA-256 of the canonical case JSON"
 
 func TestID(t *testing.T) {
 	rec := h.Begin("C17", "id")
@@ -472,6 +539,10 @@ func drawConsCase(t *rapid.T) ConsCase {
 		c.Twin = rapid.SampledFrom([]string{"", "parts-min", "parts-max", "nonce-max", "dur-one", "parts-near-max"}).Draw(t, "twin")
 	case k == 2: // two rules at once
 		c.Rules = rapid.SliceOfNDistinct(rapid.SampledFrom(allRules), 2, 2, rapid.ID[string]).Draw(t, "rules")
+	case k == 3 && rapid.Bool().Draw(t, "unspecified"):
+		// not a documented rule: classified only
+		c.Rules = []string{"part-empty"}
+		c.KeyAt = rapid.IntRange(0, 7).Draw(t, "keyat")
 	default:
 		c.Rules = []string{rapid.SampledFrom(allRules).Draw(t, "rule")}
 	}
@@ -540,6 +611,7 @@ func fillPart(i int) PartSpec {
 type tuple struct {
 	dur     uint64
 	specs   []PartSpec
+	ref     [][]refEntry // participant maps as the reference encoder writes them
 	parts   []map[wallet.BackendID]wallet.Address
 	app     channel.App
 	appDef  []byte
@@ -569,8 +641,10 @@ func (c ConsCase) build() tuple {
 		tu.specs = tu.specs[:c.NParts]
 	}
 	tu.parts = make([]map[wallet.BackendID]wallet.Address, len(tu.specs))
+	tu.ref = make([][]refEntry, len(tu.specs))
 	for i, ps := range tu.specs {
 		tu.parts[i] = map[wallet.BackendID]wallet.Address{0: ps.Addr()}
+		tu.ref[i] = []refEntry{{0, ps.Bytes()}}
 	}
 	if c.has("dur-zero") {
 		tu.dur = 0
@@ -591,22 +665,33 @@ func (c ConsCase) build() tuple {
 		i := c.KeyAt % len(tu.parts)
 		a := tu.parts[i][0]
 		m := map[wallet.BackendID]wallet.Address{wallet.BackendID(c.WrongKey): a}
+		tu.ref[i] = []refEntry{{int32(c.WrongKey), tu.specs[i].Bytes()}}
 		if c.KeepRight {
 			m[0] = tu.specs[i].Addr()
+			tu.ref[i] = append([]refEntry{{0, tu.specs[i].Bytes()}}, tu.ref[i]...)
+			if c.WrongKey < 0 {
+				tu.ref[i][0], tu.ref[i][1] = tu.ref[i][1], tu.ref[i][0] // ascending keys
+			}
 		}
 		tu.parts[i] = m
+	}
+	if c.has("part-empty") && len(tu.parts) > 0 {
+		i := c.KeyAt % len(tu.parts)
+		tu.parts[i] = map[wallet.BackendID]wallet.Address{}
+		tu.ref[i] = nil
 	}
 	return tu
 }
 
 // encodable: the violated rules can be expressed in the native encoding (an
-// absent app decodes to the no-app, a zero length nonce to 0, and the decoder
-// creates the address from the map key, so nil app, nil nonce, untyped app and
-// wrong key have no encoding).
+// absent app decodes to the no-app and a zero length nonce to 0, so nil app,
+// nil nonce and untyped app have no encoding; a participant under a wrong
+// backend key is an entry whose key names a backend that is not the
+// address' own - with one registered backend, an unknown one).
 func (c ConsCase) encodable() bool {
 	for _, r := range c.Rules {
 		switch r {
-		case "dur-zero", "parts-few", "parts-many", "nonce-long":
+		case "dur-zero", "parts-few", "parts-many", "nonce-long", "wrong-key":
 		default:
 			return false
 		}
@@ -614,8 +699,43 @@ func (c ConsCase) encodable() bool {
 	return true
 }
 
+// classifyEmptyMap: a participant map without any address.  The documented
+// rules do not mention it (NewParams used to accept it and decoding such
+// parameters panicked: F5, property C13), so the behaviour is only recorded.
+func classifyEmptyMap(c ConsCase, o *h.Outcome) {
+	tu := c.build()
+	func() {
+		defer func() {
+			if recover() != nil {
+				o.Class("unspecified:part-empty:NewParams-panics")
+			}
+		}()
+		if _, err := channel.NewParams(tu.dur, tu.parts, tu.app, tu.nonce, tu.ledger, tu.virtual, tu.aux); err != nil {
+			o.Class("unspecified:part-empty:NewParams-refuses")
+		} else {
+			o.Class("unspecified:part-empty:NewParams-accepts")
+		}
+	}()
+	func() {
+		defer func() {
+			if recover() != nil {
+				o.Class("unspecified:part-empty:Decode-panics")
+			}
+		}()
+		if _, err := decodeParams(refEncodeMaps(tu.dur, tu.ref, tu.appDef, tu.nonce, tu.ledger, tu.virtual, &tu.aux)); err != nil {
+			o.Class("unspecified:part-empty:Decode-refuses")
+		} else {
+			o.Class("unspecified:part-empty:Decode-accepts")
+		}
+	}()
+}
+
 func runConsCase(c ConsCase) *h.Outcome {
 	o := &h.Outcome{}
+	if c.has("part-empty") {
+		classifyEmptyMap(c, o)
+		return o
+	}
 	valid := len(c.Rules) == 0
 	if valid {
 		o.Class("valid-twin:" + c.Twin)
@@ -654,11 +774,7 @@ func runConsCase(c ConsCase) *h.Outcome {
 			o.Class("decode:not-expressible")
 			return nil
 		}
-		pb := make([][]byte, len(tu.specs))
-		for i, ps := range tu.specs {
-			pb[i] = ps.Bytes()
-		}
-		enc := refEncode(tu.dur, pb, tu.appDef, tu.nonce, tu.ledger, tu.virtual, &tu.aux)
+		enc := refEncodeMaps(tu.dur, tu.ref, tu.appDef, tu.nonce, tu.ledger, tu.virtual, &tu.aux)
 		d, derr := decodeParams(enc)
 		if valid {
 			if derr != nil {
@@ -695,8 +811,13 @@ func protoClassify(tu tuple, valid bool, o *h.Outcome) {
 		}
 	}()
 	pp := &protobuf.Params{ChallengeDuration: tu.dur, Nonce: tu.nonce.Bytes(), LedgerChannel: tu.ledger, VirtualChannel: tu.virtual, Aux: tu.aux[:], App: tu.appDef}
-	for _, ps := range tu.specs {
-		pp.Parts = append(pp.Parts, &protobuf.Address{AddressMapping: []*protobuf.AddressMapping{{Key: []byte{0, 0, 0, 0}, Address: ps.Bytes()}}})
+	for _, m := range tu.ref {
+		a := &protobuf.Address{}
+		for _, e := range m {
+			k := uint32(e.key)
+			a.AddressMapping = append(a.AddressMapping, &protobuf.AddressMapping{Key: []byte{byte(k >> 24), byte(k >> 16), byte(k >> 8), byte(k)}, Address: e.addr})
+		}
+		pp.Parts = append(pp.Parts, a)
 	}
 	_, err := protobuf.ToParams(pp)
 	switch {
@@ -711,14 +832,15 @@ func protoClassify(tu tuple, valid bool, o *h.Outcome) {
 	}
 }
 
-const ruleCons = "argument tuples derived from a valid base (2-5 participants): 70% violate exactly one documented rule, 10% two rules, 20% are valid twins on or near a boundary (2 / 1021-1024 participants, 32-byte nonce 2^256-1, duration 1). Rules: duration 0; 0-1 participants; 1025-1064 participants; nil app; app that is neither StateApp nor ActionApp; nil nonce; nonce of 33-64 bytes (incl. exactly 2^256); a participant stored under a backend key other than its address' backend (alone, or next to a correct entry). Oracle: NewParams returns (nil, error) iff at least one rule is violated (a panic counts as a failure); for the rules the native format can express (duration, participant count, nonce length) Params.Decode of the encoding produced by an independent byte-level reference encoder returns an error iff a rule is violated, and for valid tuples yields the constructed ID. non-trivial = exactly one rule violated; distinct by SHA-256 of the canonical case JSON"
+const ruleCons = "argument tuples derived from a valid base (2-5 participants): 70% violate exactly one documented rule, 10% two rules, 20% are valid twins on or near a boundary (2 / 1021-1024 participants, 32-byte nonce 2^256-1, duration 1). Rules: duration 0; 0-1 participants; 1025-1064 participants; nil app; app that is neither StateApp nor ActionApp; nil nonce; nonce of 33-64 bytes (incl. exactly 2^256); a participant stored under a backend key other than its address' backend (alone, or next to a correct entry). Oracle: NewParams returns (nil, error) iff at least one rule is violated (a panic counts as a failure); for the rules the native format can express (duration, participant count, nonce length, an entry under a key that is not the address' backend) Params.Decode of the encoding produced by an independent byte-level reference encoder returns an error iff a rule is violated, and for valid tuples yields the constructed ID. non-trivial = exactly one rule violated; distinct by SHA-256 of the canonical case JSON"
 
 func TestConstraints(t *testing.T) {
 	rec := h.Begin("C17", "constraints")
 	rec.SetRule(ruleCons,
-		"nil app, untyped app, nil nonce and wrong backend key have no native encoding (absent app decodes to the no-app, length 0 nonce to zero, the decoder derives the address type from the key; any key other than 0 is an unknown backend in this tree: F2, property C13) - Decode is checked for the other rules only",
+		"nil app, untyped app and nil nonce have no native encoding (absent app decodes to the no-app, length 0 nonce to zero) - Decode is checked for the other rules only; with one registered backend a wrong backend key in an encoding is an unknown backend id",
+		"a participant map without any address is not a documented rule: NewParams / Decode behaviour on it is classified (unspecified:part-empty:...), not asserted",
 		"the protobuf conversion ToParams uses the non-validating constructor (F17, property C13): its behaviour on violating tuples is classified, not asserted",
-		"negative nonces and nil / empty participant maps are outside the generated domain")
+		"negative nonces and nil addresses are outside the generated domain")
 	defer rec.Flush()
 	rapid.Check(t, func(rt *rapid.T) {
 		c := drawConsCase(rt)
